@@ -75,7 +75,11 @@ class DispatcherStop(FnSpec):
             if ex.choose(2, "queue.Full") == 1:
                 raise Raise(VExc("queue.Full"), "put_nowait()")
             return None
-        return {"BaseThread.stop": bstop, "event_queue.put_nowait": put_nowait, "EventDispatcher.stop_event": VOpaque("stop_event")}
+        # stop() may be called again on a thread that was already stopped (or that never ran): the flag is unknown
+        keep = lambda ex, recv, a, k, n: VBool(ex.fresh_term(z3.BoolSort(), "should_keep_running"))
+        alive = lambda ex, recv, a, k, n: VBool(ex.fresh_term(z3.BoolSort(), "is_alive"))
+        return {"BaseThread.stop": bstop, "event_queue.put_nowait": put_nowait, "EventDispatcher.stop_event": VOpaque("stop_event"), "BaseThread.should_keep_running": keep,
+                "EventDispatcher.should_keep_running": keep, "EventDispatcher.is_alive": alive, "BaseThread.is_alive": alive}
 
     def setup(self, ex):
         self.me = VObj("EventDispatcher")
@@ -86,6 +90,8 @@ class DispatcherStop(FnSpec):
     def post(self, ex, result):
         ok = len(self.log) == 2 and self.log[0] == "BaseThread.stop" and self.log[1][0] == "put_nowait" and isinstance(self.log[1][1], VOpaque) and self.log[1][1].kind == "stop_event"
         ex.oblige("post[flag + emitters stopped first, then the stop sentinel is offered to the event queue (wakes the dispatcher blocked in get())]", bool(ok))
+        ex.oblige("post[EVERY call of stop() runs the stop path - also on a dispatcher that was stopped before or that is not alive: watches scheduled since, and emitters started meanwhile, are torn down by it]",
+                  bool(self.log and self.log[0] == "BaseThread.stop"))
 
 
 class DispatcherInit(FnSpec):
